@@ -49,6 +49,10 @@ def cval(c, val):
     """value of a constant spec under a valuation"""
     if isinstance(c, tuple) and c and c[0] == "sym":
         return val[c[1]]
+    if isinstance(c, tuple) and c and c[0] == "np":      # a NumPy scalar of the given type, e.g. ('np', 'int64', 2)
+        return getattr(np, c[1])(c[2])
+    if isinstance(c, tuple) and c and c[0] == "py":      # a Python number of the given type, e.g. ('py', 'int', 2)
+        return {"int": int, "float": float}[c[1]](c[2])
     return c
 
 
@@ -154,6 +158,9 @@ class Build:
                 return cs @ v
             if side == "list":
                 return v @ list(cs)
+            if side in ("uint8", "uint16", "int64", "int32", "float32", "bool"):
+                # a coefficient array of another NumPy dtype (entries must be representable in it)
+                return np.asarray(cs, dtype=float).astype(getattr(np, side if side != "bool" else "bool_")) @ v
             return v @ cs
         if k == "norm":
             return self.V(r[1]).norm(r[2]) if hasattr(self.V(r[1]), "norm") else optyx.core.vectors.norm(self.V(r[1]), r[2])
@@ -163,6 +170,9 @@ class Build:
             how = r[3] if len(r) > 3 else "func"
             if how == "func":
                 return optyx.quadratic_form(v, Q)
+            if how in ("bool", "uint8", "int64"):
+                # the matrix given with another NumPy dtype (a 0/1 adjacency mask, small integers)
+                return optyx.quadratic_form(v, np.asarray(Q, dtype=float).astype(getattr(np, "bool_" if how == "bool" else how)))
             return v.dot(Q @ v)
         if k == "msum":
             return self.M(r[1]).sum()
